@@ -168,7 +168,7 @@ def tlc(module: str, cfg: str, *, env: dict | None = None, workers: int | str = 
     e.update({k: str(v) for k, v in (env or {}).items()})
     e['OUT'] = str(out)
     (d / 'jtmp').mkdir(exist_ok=True)       # TLC's temporary directories stay inside the scratch directory
-    jopts = f'-Xmx{xmx} -XX:+UseParallelGC -Djava.io.tmpdir={d}/jtmp'
+    jopts = f'-Xmx{xmx} -Xss64m -XX:+UseParallelGC -Djava.io.tmpdir={d}/jtmp'
     if deque:
         jopts += ' -Dtlc2.tool.queue.IStateQueue=StateDeque'
     e['JAVA_TOOL_OPTIONS'] = jopts
